@@ -128,6 +128,9 @@ def one(c, r, name, hdr, mk, b, i, typed=None):
         c.count('typed-constants-as-bytes', len(typed))
     decl, stmt = mk(e, False)
     src = (HEAD + '\n'.join(lets) + '\n' + decl + '\n' + stmt + '\n').encode('utf-8')
+    if i % 7 == 5 and len(src) < 20000:
+        from ..gen import Lib, name_mandatory
+        src = name_mandatory(src, Lib(), r, (2, 3))
     impl, model = progdiff.run_both(c, src)
     progdiff.compare(c, src, impl, model, 'payload:' + name, project=lambda f, h=hdr: f[h:], times=False)
     rep = dict(src=src.decode("utf-8")[:600000], want=b.hex()[:400])
